@@ -21,7 +21,7 @@ from __future__ import annotations
 
 import ast
 
-from ..common import AnalysisError, norm_src, unparse
+from ..common import all_paths_return, AnalysisError, norm_src, unparse
 from ..exact import const_value
 
 LEVEL = "other"
@@ -183,9 +183,37 @@ def importance_get(node, keyvar):
     return False
 
 
+def removal_vars(fn):
+    """names that hold the key(s) selected for removal: the subscript of a deletion from
+    self.data / self.last_accessed, or the list such a subscript iterates over"""
+    out = set()
+    for node in ast.walk(fn):
+        if isinstance(node, ast.Delete):
+            for t in node.targets:
+                if (is_self_sub(t, "data") or is_self_sub(t, "last_accessed")) \
+                        and isinstance(t.slice, ast.Name):
+                    nm = t.slice.id
+                    par = getattr(node, "_parent", None)
+                    while par is not None and not isinstance(par, ast.FunctionDef):
+                        if isinstance(par, ast.For) and isinstance(par.target, ast.Name) \
+                                and par.target.id == nm and isinstance(par.iter, ast.Name):
+                            nm = par.iter.id
+                            break
+                        par = getattr(par, "_parent", None)
+                    out.add(nm)
+    return out
+
+
 def strain_factor(rep):
     S = rep.sources
     fn = S.function(CORE, "AurelCore.cleanup_cache")
+    rvars = removal_vars(fn)
+    if not rvars:
+        raise AnalysisError("cleanup_cache: no deletion keyed by a local name found")
+
+    def records(s):
+        t = s.targets[0] if isinstance(s, ast.Assign) else s.target
+        return isinstance(t, ast.Name) and t.id in rvars
     loops = [n for n in ast.walk(fn) if isinstance(n, ast.For)
              and "self.last_accessed" in unparse(n.iter)]
     if len(loops) < 2:
@@ -200,8 +228,7 @@ def strain_factor(rep):
             if isinstance(node, ast.If) and isinstance(node.test, ast.Compare) \
                     and len(node.test.ops) == 1 and isinstance(node.test.left, ast.Name):
                 direct = [s for s in node.body if isinstance(s, (ast.Assign, ast.AugAssign))]
-                if any("key_to_remove" in unparse(s.targets[0] if isinstance(s, ast.Assign)
-                                                  else s.target) for s in direct):
+                if any(records(s) for s in direct):
                     preds.append(node)
         if not preds:
             raise AnalysisError(f"cleanup_cache scan {li}: no selection predicate found")
@@ -214,8 +241,7 @@ def strain_factor(rep):
                       node=pred)
             # the key recorded is the loop key
             rec_ok = any(isinstance(n, (ast.Assign, ast.AugAssign))
-                         and "key_to_remove" in unparse(n.targets[0] if isinstance(n, ast.Assign)
-                                                        else n.target)
+                         and records(n)
                          and keyvar in [x.id for x in ast.walk(n.value)
                                         if isinstance(x, ast.Name)]
                          for st in pred.body for n in ast.walk(st))
@@ -472,20 +498,24 @@ def loops_and_termination(rep):
                   node=w)
         # key_to_remove is assigned together with maxstrain
         okk = False
+        rvars = removal_vars(fn)
         for node in ast.walk(w):
-            if isinstance(node, ast.If):
+            if isinstance(node, ast.If) and isinstance(node.test, ast.Compare) \
+                    and isinstance(node.test.comparators[0], ast.Name):
                 names = {unparse(t) for st in node.body if isinstance(st, ast.Assign)
                          for t in st.targets}
-                if "maxstrain" in names and "key_to_remove" in names:
+                # the running maximum and the selected key are updated together
+                if node.test.comparators[0].id in names and names & rvars:
                     okk = True
         rep.check(okk, "no-raise", f"{CORE}::AurelCore.cleanup_cache::key_to_remove",
                   "key_to_remove must be assigned in the same block as maxstrain, so that "
                   "maxstrain > 0 implies it is bound to an existing entry", node=w)
     # get_size is total
     gs = S.function(MEM, "get_size")
-    last = gs.body[-1]
-    rep.check(isinstance(last, ast.Return), "no-raise", f"{MEM}::get_size::fallback",
-              "get_size must end with an unconditional fallback return", node=gs)
+    rep.check(all_paths_return(gs.body) and not any(isinstance(n, ast.Raise)
+                                                     for n in ast.walk(gs)),
+              "no-raise", f"{MEM}::get_size::fallback",
+              "get_size must return on every path (a final fallback) and never raise", node=gs)
     rec_ok = True
     for node in ast.walk(gs):
         if isinstance(node, ast.If):
